@@ -39,6 +39,8 @@ structure PktObs where
   roundtrip : Bool                -- Unmarshal(Marshal(p)) succeeds and equals p field by field
   deriving DecidableEq, Repr, Inhabited
 
+namespace Packetizer
+
 /-! ### abs-send-time (abssendtimeextension.go:53-71) -/
 
 /-- `toNtpTime(t)` for `t.UnixNano() = now`: 32.32 fixed point seconds since 1900, all in uint64
@@ -71,6 +73,8 @@ def marshalSimple (padding marker : Bool) (pt : UInt8) (seq : UInt16) (ts ssrc :
       [0xBE, 0xDE] ++ be16 (padded.length / 4).toUInt16 ++ padded
   let pad := if padding then rep (padSize - 1) 0 ++ [padSize.toUInt8] else []
   hdr ++ x ++ payload ++ pad
+
+end Packetizer
 
 /-- the configuration and running state of a `packetizer` -/
 structure Packetizer where
